@@ -123,6 +123,66 @@ seed_sequences(int role, int dead_mode, const char *tag)
 	}
 }
 
+/* the generator is an HMAC_DRBG over SHA-256, else SHA-384, else SHA-1, whichever the engine has:
+ * the seeding rule must not depend on which one it is; with none of them no handshake may start */
+static void
+drop_hashes(void *epv, void *arg)
+{
+	tp_ep *ep = epv;
+	int mask = *(int *)arg, id;
+	for (id = 1; id <= 6; id ++) if (mask & (1 << id)) br_ssl_engine_set_hash(ep->eng, id, NULL);
+}
+
+static void
+seed_hash_case(int role, int mask, int seeder_mode, int inject, int expect /* 1 start, 0 refuse NO_RANDOM, 2 refuse with any error */, const char *name)
+{
+	tp_ep ep;
+	tp_cfg c;
+	int r, e;
+	size_t l;
+	char what[240];
+	memset(&ep, 0, sizeof ep);
+	tp_cfg_default(&c, role);
+	c.seeder_mode = seeder_mode;
+	c.inject_entropy = inject;
+	c.pre_reset = drop_hashes; c.pre_reset_arg = &mask;
+	memset(c.seed, 0x3A, 32);
+	snprintf(tp_case, sizeof tp_case, "%s seeding-hash-case=%s role=%d dropped-hash-mask=%02x seeder_mode=%d inject=%d", mode_desc, name, role, mask, seeder_mode, inject);
+	r = tp_ep_start(&ep, &c);
+	e = br_ssl_engine_last_error(ep.eng);
+	vf_stat("seed_hash_cases", 1);
+	vf_distinct("seed_hash_outcome", "mask%02x mode%d inject%d -> %d err%d", mask, seeder_mode, inject, r, e);
+	if (expect == 1) {
+		if (r != 1 || e != 0) {
+			snprintf(what, sizeof what, "reset returned %d, last_error=%d although entropy was available (generator hash differs from SHA-256)", r, e);
+			TP_VIOL("refused-although-seeded", what);
+		} else vf_stat("started_with_randomness", 1);
+	} else {
+		if (r != 0 || e == 0 || (expect == 0 && e != BR_ERR_NO_RANDOM)
+			|| br_ssl_engine_current_state(ep.eng) != BR_SSL_CLOSED || br_ssl_engine_sendrec_buf(ep.eng, &l) != NULL)
+		{
+			snprintf(what, sizeof what, "reset returned %d, last_error=%d, state=%u: a handshake started although %s", r, e, br_ssl_engine_current_state(ep.eng),
+				expect == 0 ? "no randomness was available" : "the engine has no hash function for its generator");
+			TP_VIOL("handshake-started-without-randomness", what);
+		} else vf_stat("refused_without_randomness", 1);
+	}
+	tp_ep_free(&ep);
+}
+
+static void
+seed_hash_cases(int role)
+{
+	static const int masks[3] = { 1 << 4, (1 << 4) | (1 << 5), (1 << 4) | (1 << 5) | (1 << 2) };   /* -SHA256; -SHA256-SHA384; -SHA256-SHA384-SHA1 */
+	int i;
+	for (i = 0; i < 3; i ++) {
+		int none = i == 2;
+		seed_hash_case(role, masks[i], 1, 0, none ? 2 : 1, "working-seeder");
+		seed_hash_case(role, masks[i], 2, 0, none ? 2 : 0, "seeder-fails");
+		seed_hash_case(role, masks[i], 3, 0, none ? 2 : 0, "no-seeder");
+		seed_hash_case(role, masks[i], 2, 1, none ? 2 : 1, "seeder-fails+inject");
+	}
+}
+
 /* full handshake where both endpoints have only injected entropy */
 static void
 inject_only_handshake(int seeder_mode)
@@ -351,6 +411,7 @@ main(int argc, char **argv)
 			/* working source */
 			seed_case(role, 1, 0, 1, "fixed-seeder");
 			/* untouched system behaviour of this build */
+			seed_hash_cases(role);
 			seed_sequences(role, 2, "seeder-fails");
 			seed_sequences(role, 3, "no-seeder");
 			if (noseed_build) {
